@@ -465,6 +465,24 @@ def curated_special():
     out.append(('arg-let-read', [
         ('rule', 'start', None, ('seq', [('call', 'W', [('let', 'v', T, ('py', "('seen', v)"))]), ('call', 'W', [('let', 'v', T, ('where', T, ('py', 'lambda w: w == v')))])])),
         ('rule', 'W', ['p'], ('seq', [('ref', 'p'), ('opt', ('str', '!'))]))]))
+    # an argument handed on to a second template -- by position or by keyword -- and used there as a
+    # value, as a parser, or as both (a string literal is both)
+    for atag, arg in (('str', ('str', 'a')), ('str2', ('str', 'ab')), ('py', ('py', "'a'")), ('tok', ('ref', 'Tok'))):
+        for ftag in ('pos', 'kw'):
+            for utag in ('value', 'parser', 'both'):
+                if (atag == 'py' and utag != 'value') or (atag == 'tok' and utag != 'parser'):
+                    continue
+                fwd = ('ref', 'tag') if ftag == 'pos' else ('kw', 'word', ('ref', 'tag'))
+                if utag == 'value':
+                    inner = ('where', ('re', '[ab]+', False), ('py', 'lambda x: x == word'))
+                elif utag == 'parser':
+                    inner = ('seq', [('ref', 'word'), ('opt', ('ref', 'word'))])
+                else:
+                    inner = ('seq', [('ref', 'word'), ('py', "('val', word)")])
+                out.append(('forward-%s-%s-%s' % (atag, ftag, utag), [
+                    ('rule', 'start', None, ('alt', [('call', 'Tagged', [arg, ('str', '!')]), ('call', 'Tagged', [arg, ('ref', 'Tok')])])),
+                    ('rule', 'Tagged', ['tag', 'body'], ('seq', [('call', 'Keyword', [fwd]), ('ref', 'body')])),
+                    ('rule', 'Keyword', ['word'], inner)]))
     # templates handed to templates: a parameter called with arguments
     ANGLE = ('rule', 'Angle', ['x'], ('right', ('str', '<'), ('left', ('ref', 'x'), ('str', '>'))))
     CURLY = ('rule', 'Curly', ['x'], ('seq', [('str', '{'), ('ref', 'x'), ('str', '}')]))
